@@ -189,18 +189,29 @@ def generate(tier, seed, ctx):
     # TL parser
     tl = TlGenerator.with_default_schemas().generate()
     sch = tl.get_by_name('liteServer.accountId') or None
-    vec_types = [s for s in tl.list if any('vector' in t for t in s.args.values())]
-    for s in (vec_types[:6] if q else vec_types[:40]):
+    # one constructor per vector ELEMENT type (base types int / long / int256 / bytes / string first, then object types),
+    # with the vector as its first field so that the count field sits right after the constructor id
+    import re
+    by_elem = {}
+    for sc in tl.list:
+        args = list(sc.args.items())
+        if args and 'vector' in args[0][1]:
+            m = re.search(r'vector\s+([^)\s]+)', args[0][1]) or re.search(r'vector<([^>]+)>', args[0][1])
+            by_elem.setdefault(m.group(1) if m else args[0][1], sc)
+    base_first = sorted(by_elem, key=lambda e: (e not in ('int', 'long', 'int256', 'int128', 'bytes', 'string', '#'), e))
+    n_base = sum(1 for e in base_first if e in ('int', 'long', 'int256', 'int128', 'bytes', 'string', '#'))
+    for e in (base_first[:n_base + 4] if q else base_first):
+        sc = by_elem[e]
         for count in (0xffffffff, 0x7fffffff, 65536, 0x01000000):
-            fields = b''
-            for f, t in s.args.items():
-                if 'vector' in t:
-                    fields += count.to_bytes(4, 'little')
-                    break
-                fields += b'\x00' * 4
             for tail in (b'', b'\x00' * 8, bytes(rng.getrandbits(8) for _ in range(64))):
-                data = s.little_id() + fields + tail
+                data = sc.little_id() + count.to_bytes(4, 'little') + tail
                 rec('tl_vector_count', 0, 0, len(data), lambda: tl.deserialize(data))
+        # the same lying count inside a bytes field that the parser deserialises on its own accord (nested object)
+        inner = sc.little_id() + (0xffffffff).to_bytes(4, 'little')
+        wrap = tl.get_by_name('adnl.message.answer')
+        if wrap is not None:
+            data = wrap.little_id() + b'\x00' * 32 + bytes([len(inner)]) + inner + b'\x00' * ((-(1 + len(inner))) % 4)
+            rec('tl_vector_count_nested', 0, 0, len(data), lambda: tl.deserialize(data))
     bytes_types = [s for s in tl.list if any(t in ('bytes', 'string') for t in s.args.values())]
     for s in (bytes_types[:6] if q else bytes_types[:40]):
         pre = b''
